@@ -353,6 +353,15 @@ def _const_text(repo, node, depth=0):
             return _const_text(repo, repo.module_assign("xrefs.py", node.id), depth + 1)
         except AnalysisError:
             return None
+    if isinstance(node, ast.Attribute) and node.attr == "pattern" and isinstance(node.value, ast.Name):
+        # the text of another compiled pattern of the module: ``col_parts.pattern``
+        try:
+            other = repo.module_assign("xrefs.py", node.value.id)
+        except AnalysisError:
+            return None
+        if isinstance(other, ast.Call) and U(other.func) == "re.compile" and other.args:
+            return _const_text(repo, other.args[0], depth + 1)
+        return None
     if isinstance(node, ast.BinOp) and isinstance(node.op, (ast.Add, ast.Sub, ast.Mult)):
         a, b = _const_text(repo, node.left, depth + 1), _const_text(repo, node.right, depth + 1)
         if a is None or b is None:
